@@ -13,6 +13,7 @@ import (
 	"github.com/ipld/go-ipld-prime/node/basicnode"
 
 	"github.com/ucan-wg/go-ucan/pkg/policy"
+	"github.com/ucan-wg/go-ucan/pkg/policy/literal"
 
 	"verif/harness/sel"
 	"verif/harness/val"
@@ -26,6 +27,48 @@ type Stmt struct {
 	Lit *val.V   `json:"lit,omitempty"`
 	Pat string   `json:"pat,omitempty"`
 	Sub []Stmt   `json:"sub,omitempty"`
+	// LitGo: the literal is handed to the library as a GO value (map[string]any, []any, int64, string ...) through
+	// literal.Any, the way callers write policy literals - not as a prebuilt IPLD node. A Go map has no order: the
+	// order of the literal's keys is then the library's choice.
+	LitGo bool `json:"lit_go,omitempty"`
+}
+
+// ToGo renders a value as the Go value a caller would write (no nulls inside: literal.Any has no spelling for them).
+func ToGo(v val.V) any {
+	switch v.Kind() {
+	case "int":
+		return v.I
+	case "str":
+		return v.StrVal()
+	case "bool":
+		return v.B
+	case "float":
+		return v.Float64()
+	case "bytes":
+		return append([]byte{}, v.X...)
+	case "list":
+		out := make([]any, len(v.L))
+		for i, e := range v.L {
+			out[i] = ToGo(e)
+		}
+		return out
+	case "map":
+		out := map[string]any{}
+		for _, e := range v.M {
+			out[e.K] = ToGo(e.V)
+		}
+		return out
+	}
+	return v.Node()
+}
+
+func (s Stmt) litNode() ipld.Node {
+	if s.LitGo {
+		if n, err := literal.Any(ToGo(*s.Lit)); err == nil {
+			return n
+		}
+	}
+	return s.Lit.Node()
 }
 
 type Policy []Stmt
@@ -57,7 +100,7 @@ func (s Stmt) assemble() qp.Assemble {
 		return qp.List(3, func(la datamodel.ListAssembler) {
 			qp.ListEntry(la, qp.String(s.Op))
 			qp.ListEntry(la, qp.String(s.Sel.Text()))
-			qp.ListEntry(la, qp.Node(s.Lit.Node()))
+			qp.ListEntry(la, qp.Node(s.litNode()))
 		})
 	case s.Op == "like":
 		return qp.List(3, func(la datamodel.ListAssembler) {
@@ -93,15 +136,15 @@ func (s Stmt) assemble() qp.Assemble {
 func (s Stmt) Constructor() policy.Constructor {
 	switch s.Op {
 	case "==":
-		return policy.Equal(s.Sel.Text(), s.Lit.Node())
+		return policy.Equal(s.Sel.Text(), s.litNode())
 	case "<":
-		return policy.LessThan(s.Sel.Text(), s.Lit.Node())
+		return policy.LessThan(s.Sel.Text(), s.litNode())
 	case "<=":
-		return policy.LessThanOrEqual(s.Sel.Text(), s.Lit.Node())
+		return policy.LessThanOrEqual(s.Sel.Text(), s.litNode())
 	case ">":
-		return policy.GreaterThan(s.Sel.Text(), s.Lit.Node())
+		return policy.GreaterThan(s.Sel.Text(), s.litNode())
 	case ">=":
-		return policy.GreaterThanOrEqual(s.Sel.Text(), s.Lit.Node())
+		return policy.GreaterThanOrEqual(s.Sel.Text(), s.litNode())
 	case "like":
 		return policy.Like(s.Sel.Text(), s.Pat)
 	case "not":
@@ -285,9 +328,9 @@ func deepEqual(a, b val.V) Res {
 			}
 			out = worst(out, r)
 		}
-		if !sameOrder {
-			return worst(out, Unspecified)
-		}
+		// a map is its entries: the order of the keys is not the policy author's or the invoker's to choose (the
+		// library sorts arguments and literals, DAG-CBOR re-orders both on the wire), see fix 76d04ea
+		_ = sameOrder
 		return out
 	}
 	return Unspecified
@@ -394,6 +437,26 @@ func Eval(s Stmt, data val.V) Res {
 		}
 		switch s.Op {
 		case "==":
+			if s.LitGo && s.Lit.Kind() == "map" && v.Kind() == "map" && len(s.Sel) == 1 && s.Sel[0].Kind == "id" {
+				// a literal written as a Go map against the argument set as a whole: neither side has an order of
+				// the caller's choosing (the library orders both), so equality is equality of the entries
+				if len(s.Lit.M) != len(v.M) {
+					return False
+				}
+				out := True
+				for _, e := range s.Lit.M {
+					o, ok := v.Get(e.K)
+					if !ok {
+						return False
+					}
+					r := deepEqual(e.V, o)
+					if r == False {
+						return False
+					}
+					out = worst(out, r)
+				}
+				return out
+			}
 			return deepEqual(*s.Lit, v)
 		case "like":
 			if v.Kind() != "str" {
